@@ -89,7 +89,7 @@ def run(ctx):
     common.sh([os.path.join(common.ROOT, "ocaml/proto/build.sh")], timeout=900, check=True)
     rel_sh = common.cargo_build("harness-proto", "shuttle")
     iters = 60 if ctx.tier == "quick" else 1500
-    out = os.path.join(common.BUILD, "proto-traces", f"{ctx.prop}-{ctx.seed}")
+    out = os.path.join(common.BUILD, "proto-traces", f"{ctx.prop}-{ctx.seed}-{os.getpid()}")
     shutil.rmtree(out, ignore_errors=True)
     os.makedirs(out)
     runs = []
